@@ -128,9 +128,17 @@ Section World.
     intros j q H. simpl. destruct (Z.eqb_spec j id); [subst; congruence|exact H].
   Qed.
 
-  Lemma step_pres w o : pres w (fst (step w o)).
+  (* operations of dclab itself (the user neither rewrites files nor
+     modifies his arrays) *)
+  Definition quiet (o : op) : bool :=
+    match o with
+    | OCall _ _ _ _ | ORegister _ _ => true
+    | OWriteFile _ _ | OMutate _ _ => false
+    end.
+
+  Lemma step_pres w o : quiet o = true -> pres w (fst (step w o)).
   Proof.
-    destruct o as [d S m evs|p i]; simpl.
+    destruct o as [d S m evs|p i|p f|a rows]; simpl; try discriminate; intros _.
     - pose proof (get_emodulus_w_agree w d S m evs) as [P _].
       destruct (get_emodulus_w w d S m evs); exact P.
     - pose proof (register_pres w p i) as P.
@@ -139,11 +147,13 @@ Section World.
 
   (* === registered LUTs, files and existing arrays are not modified by any
          sequence of get_emodulus calls and registrations =============== *)
-  Theorem run_ops_pres ops : forall w, pres w (fst (run_ops w ops)).
+  Theorem run_ops_pres ops :
+    forallb quiet ops = true -> forall w, pres w (fst (run_ops w ops)).
   Proof.
-    induction ops as [|o r IH]; intros w; simpl; [apply pres_refl|].
-    pose proof (step_pres w o) as P1. destruct (step w o) as [w1 x].
-    pose proof (IH w1) as P2. destruct (run_ops w1 r) as [w2 xs]. simpl in *.
+    induction ops as [|o r IH]; intros Q w; simpl; [apply pres_refl|].
+    simpl in Q. apply andb_prop in Q. destruct Q as [Q1 Q2].
+    pose proof (step_pres w o Q1) as P1. destruct (step w o) as [w1 x].
+    pose proof (IH Q2 w1) as P2. destruct (run_ops w1 r) as [w2 xs]. simpl in *.
     eapply pres_trans; eauto.
   Qed.
 
@@ -151,14 +161,14 @@ Section World.
     match ops with
     | [] => true
     | OCall _ _ _ _ :: r => only_calls r
-    | ORegister _ _ :: _ => false
+    | _ :: _ => false
     end.
 
   Theorem run_calls_agree ops :
     only_calls ops = true -> forall w, agree w (fst (run_ops w ops)).
   Proof.
     induction ops as [|o r IH]; intros H w; simpl; [apply agree_refl|].
-    destruct o as [d S m evs|]; [|discriminate]. simpl in H. simpl.
+    destruct o as [d S m evs| | |]; try discriminate. simpl in H. simpl.
     pose proof (get_emodulus_w_agree w d S m evs) as A1.
     destruct (get_emodulus_w w d S m evs) as [w1 x].
     pose proof (IH H w1) as A2. destruct (run_ops w1 r) as [w2 xs]. simpl in *.
@@ -257,12 +267,13 @@ Section World.
     end.
 
   Theorem call_after_history w ops d S m evs :
+    forallb quiet ops = true ->
     data_valid w d ->
     snd (get_emodulus_w (fst (run_ops w ops)) d S m evs)
     = snd (get_emodulus_w w d S m evs).
   Proof.
-    intros V. rewrite !get_emodulus_w_result. f_equal.
-    pose proof (run_ops_pres ops w) as P.
+    intros Qt V. rewrite !get_emodulus_w_result. f_equal.
+    pose proof (run_ops_pres ops Qt w) as P.
     destruct d as [a mt|x].
     - now apply loaded_tuple_stable.
     - destruct V as [p Hp]. eapply loaded_name_stable; eauto.
@@ -281,6 +292,119 @@ Section World.
     - now apply loaded_tuple_stable.
     - rewrite !loaded_name. unfold get_lut_path.
       destruct P as (F & I & _). now rewrite F, I, E.
+  Qed.
+
+  (* === with the user rewriting files and modifying his arrays in between:
+         get_emodulus calls in the history never matter, every call sees the
+         CURRENT files, registry and arrays ============================= *)
+  Definition is_call (o : op) : bool :=
+    match o with OCall _ _ _ _ => true | _ => false end.
+
+  Definition erase_calls (ops : list op) : list op :=
+    filter (fun o => negb (is_call o)) ops.
+
+  (* the user can only modify arrays of his own: addresses below n0 *)
+  Definition user_op (n0 : N) (o : op) : bool :=
+    match o with
+    | OMutate a _ => (a <? n0)%N
+    | _ => true
+    end.
+
+  (* two worlds the user cannot tell apart *)
+  Definition same_env (n0 : N) (w1 w2 : world) : Prop :=
+    w_files w1 = w_files w2 /\ w_internal w1 = w_internal w2 /\
+    w_ext w1 = w_ext w2 /\ (n0 <= w_next w1)%N /\ (n0 <= w_next w2)%N /\
+    forall a, (a < n0)%N -> hread w1 a = hread w2 a.
+
+  Lemma same_env_call n0 w1 w2 d S m evs :
+    same_env n0 w1 w2 ->
+    same_env n0 (fst (get_emodulus_w w1 d S m evs)) w2.
+  Proof.
+    intros (F & I & E & N1 & N2 & H).
+    destruct (get_emodulus_w_agree w1 d S m evs) as ((F' & I' & _ & N' & H') & E').
+    repeat split; try congruence; try lia.
+    intros a Ha. rewrite H' by lia. now apply H.
+  Qed.
+
+  Lemma same_env_register n0 w1 w2 p i :
+    same_env n0 w1 w2 ->
+    same_env n0 (fst (register_lut w1 p i)) (fst (register_lut w2 p i)).
+  Proof.
+    intros (F & I & E & N1 & N2 & H). unfold register_lut. rewrite F, I, E.
+    destruct (match i with
+              | Some i0 => Ok i0
+              | None => _
+              end) as [id|e]; simpl; [|repeat split; auto].
+    destruct (zlookup id (w_ext w2)); simpl; [repeat split; auto|].
+    destruct (zlookup id (w_internal w2)); simpl; repeat split; auto;
+      simpl; congruence.
+  Qed.
+
+  Lemma same_env_erase n0 ops :
+    forallb (user_op n0) ops = true ->
+    forall w1 w2, same_env n0 w1 w2 ->
+                  same_env n0 (fst (run_ops w1 ops))
+                           (fst (run_ops w2 (erase_calls ops))).
+  Proof.
+    induction ops as [|o r IH]; intros U w1 w2 R; simpl; auto.
+    simpl in U. apply andb_prop in U. destruct U as [U1 U2].
+    destruct o as [d S m evs|p i|p f|a rows]; simpl.
+    - pose proof (same_env_call n0 w1 w2 d S m evs R) as R1.
+      destruct (get_emodulus_w w1 d S m evs) as [w1' x]. simpl in R1.
+      pose proof (IH U2 w1' w2 R1) as R2.
+      destruct (run_ops w1' r) as [wa xa]. exact R2.
+    - pose proof (same_env_register n0 w1 w2 p i R) as R1.
+      destruct (register_lut w1 p i) as [w1' x1].
+      destruct (register_lut w2 p i) as [w2' x2]. simpl in R1.
+      pose proof (IH U2 w1' w2' R1) as R2.
+      destruct (run_ops w1' r) as [wa xa].
+      destruct (run_ops w2' (erase_calls r)) as [wb xb]. exact R2.
+    - assert (R1 : same_env n0 (write_file w1 p f) (write_file w2 p f)).
+      { destruct R as (F & I & E & N1 & N2 & H). unfold write_file.
+        repeat split; simpl; auto. congruence. }
+      pose proof (IH U2 _ _ R1) as R2.
+      destruct (run_ops (write_file w1 p f) r) as [wa xa].
+      destruct (run_ops (write_file w2 p f) (erase_calls r)) as [wb xb]. exact R2.
+    - assert (R1 : same_env n0 (hwrite w1 a rows) (hwrite w2 a rows)).
+      { destruct R as (F & I & E & N1 & N2 & H). unfold hwrite.
+        repeat split; simpl; auto.
+        intros b Hb. unfold hread. simpl.
+        destruct (N.eqb_spec b a); auto. now apply H. }
+      pose proof (IH U2 _ _ R1) as R2.
+      destruct (run_ops (hwrite w1 a rows) r) as [wa xa].
+      destruct (run_ops (hwrite w2 a rows) (erase_calls r)) as [wb xb]. exact R2.
+  Qed.
+
+  Lemma loaded_same_env n0 w1 w2 d :
+    same_env n0 w1 w2 ->
+    match d with DTuple a _ => (a < n0)%N | DName _ => True end ->
+    loaded w1 d = loaded w2 d.
+  Proof.
+    intros (F & I & E & N1 & N2 & H) V. destruct d as [a mt|x].
+    - rewrite !loaded_tuple. now rewrite H.
+    - rewrite !loaded_name. unfold get_lut_path. now rewrite F, I, E.
+  Qed.
+
+  Theorem calls_never_matter w ops d S m evs :
+    forallb (user_op (w_next w)) ops = true ->
+    match d with DTuple a _ => (a < w_next w)%N | DName _ => True end ->
+    snd (get_emodulus_w (fst (run_ops w ops)) d S m evs)
+    = snd (get_emodulus_w (fst (run_ops w (erase_calls ops))) d S m evs).
+  Proof.
+    intros U V. rewrite !get_emodulus_w_result. f_equal.
+    apply (loaded_same_env (w_next w)); auto.
+    apply same_env_erase; auto.
+    repeat split; auto; lia.
+  Qed.
+
+  (* after the user rewrote the file behind a name, a call sees the new
+     content *)
+  Theorem call_sees_rewritten_file w p f :
+    zlookup p (w_files w) <> None ->
+    loaded (write_file w p f) (DName p) = load_mtext f.
+  Proof.
+    intros _. rewrite loaded_name. unfold get_lut_path, write_file. simpl.
+    rewrite Z.eqb_refl. simpl. rewrite Z.eqb_refl. reflexivity.
   Qed.
 End World.
 
@@ -315,9 +439,22 @@ Definition ex_world : world :=
   mkWorld [(100%Z, ex_file)] [(1%Z, 100%Z)] [] [(0%N, f_rows ex_file)] 1.
 
 Example ex_registry :
-  run_load_ops ex_world [(1, 7, 0); (0, 100, -1); (1, 7, 0); (0, 100, 7);
-                         (0, 100, 1); (1, 1, 0); (1, 55, 0)]%Z
-  = [1; 0; 0; 100; 1; 1; 1; 0; 100; 1; 1]%Z.
+  run_load_ops ex_world []
+               [(1, 7, 0); (0, 100, -1); (1, 7, 0); (0, 100, 7);
+                (0, 100, 1); (1, 1, 0); (1, 55, 0)]%Z
+  = [1; 0; 0; 100; 1; 2; 1; 1; 0; 100; 1; 2; 1]%Z.
+Proof. vm_compute. reflexivity. Qed.
+
+(* the file behind a registered identifier is rewritten: the next load sees
+   the new content (tag 9 instead of 2) *)
+Definition ex_file2 : lutfile :=
+  mkFile true true true (Some 7%Z) [(1, 1); (0, 0); (2, 2)]%Z 20 (4 # 100) 15
+         [ (10, 1 # 100, 9); (100, 2 # 100, 8); (60, 10 # 100, 1) ]%Q.
+
+Example ex_rewrite :
+  run_load_ops ex_world [ex_file2]
+               [(0, 100, -1); (1, 7, 0); (2, 100, 0); (1, 7, 0); (1, 100, 0)]%Z
+  = [0; 0; 100; 1; 2; 0; 100; 1; 9; 0; 100; 1; 9]%Z.
 Proof. vm_compute. reflexivity. Qed.
 
 Example ex_call_leaves_arrays :
